@@ -82,6 +82,8 @@ impl SimTime {
     /// Sets the sim time
     ///
     pub(crate) fn set_now(time: SimTime) {
+        #[cfg(petrichorit_des_verif)]
+        crate::verif::clock_write(Self::now(), time);
         SIMTIME.0.store(time.as_secs(), Ordering::SeqCst);
         SIMTIME.1.store(time.subsec_nanos(), Ordering::SeqCst);
     }
